@@ -34,6 +34,8 @@ pub struct Ctx {
     pub forgotten: u64,
     // ---- allocator ledger
     pub blocks: StdMap<usize, (usize, usize)>, // user ptr -> (size, align)
+    pub block_fam: StdMap<usize, u32>,         // user ptr -> family of the allocator instance that handed it out
+    pub next_fam: u32,
     pub ev_log: Vec<(char, u64, u64, u64)>,    // ordered window log: ('A'|'F'|'R', size, align, 0) and ('K'|'V'|'T', serial, a, b) drops
     pub refuse_nth: Option<u64>,               // the n-th allocation request from now is refused
     pub alloc_errors: Vec<String>,
@@ -395,8 +397,19 @@ impl Hasher for PlanHasher {
 const RZ: usize = 64; // red zone on each side (and >= any alignment we use is handled below)
 const RZ_BYTE: u8 = 0xA5;
 
-#[derive(Clone, Copy, Default)]
-pub struct Ledger;
+/// Every separately constructed allocator handle is its own allocator INSTANCE (a fresh family
+/// number); clones of a handle belong to the same family (the Allocator contract lets a clone
+/// release what the original handed out).  A block must be released through the family it came from.
+#[derive(Clone, Copy)]
+pub struct Ledger(pub u32);
+impl Ledger {
+    pub fn fresh() -> Ledger {
+        Ledger(with_ctx(|c| { c.next_fam += 1; c.next_fam }))
+    }
+}
+impl Default for Ledger {
+    fn default() -> Ledger { Ledger::fresh() }
+}
 
 fn outer_layout(l: Layout) -> (Layout, usize) {
     let pad = RZ.max(l.align());
@@ -434,6 +447,7 @@ unsafe impl Allocator for Ledger {
         let user = unsafe { base.add(pad) };
         with_ctx(|c| {
             c.blocks.insert(user as usize, (layout.size(), layout.align()));
+            c.block_fam.insert(user as usize, self.0);
             c.ev_log.push(('A', layout.size() as u64, layout.align() as u64, 0));
         });
         Ok(NonNull::slice_from_raw_parts(NonNull::new(user).unwrap(), layout.size()))
@@ -442,6 +456,11 @@ unsafe impl Allocator for Ledger {
         let user = ptr.as_ptr();
         let known = with_ctx(|c| {
             let k = c.blocks.remove(&(user as usize));
+            if let Some(f) = c.block_fam.remove(&(user as usize)) {
+                if f != self.0 {
+                    c.alloc_errors.push(format!("block size={} align={} released through a different allocator instance than the one it was obtained from (obtained from #{}, released through #{})", layout.size(), layout.align(), f, self.0));
+                }
+            }
             match k {
                 None => c.alloc_errors.push(format!("free of unknown block size={} align={}", layout.size(), layout.align())),
                 Some((s, a)) if s != layout.size() || a != layout.align() => c.alloc_errors.push(format!(
